@@ -483,4 +483,188 @@ theorem updateLinreg_eq (wt : Weighting) (rows : List Row) :
   | nil => simp [usableRows]
   | cons a r => simp
 
+/-! ### weights entry by entry -/
+
+theorem nanmin_filter_eq_leastNonzero : ∀ xs : List V,
+    nanmin (xs.filter (fun v => !isZero v)) = leastNonzero xs := by
+  intro xs
+  induction xs with
+  | nil => rfl
+  | cons v l ih =>
+    unfold nanmin at ih ⊢
+    cases v with
+    | none =>
+      have hz : isZero (none : V) = false := rfl
+      simp only [List.filter_cons, hz, Bool.not_false, if_true, leastNonzero, List.filterMap_cons, id]
+      exact ih
+    | some q =>
+      by_cases hq : q = 0
+      · subst hq
+        have hz : isZero (some 0 : V) = true := rfl
+        simp only [List.filter_cons, hz, Bool.not_true, Bool.false_eq_true, if_false, leastNonzero, if_true]
+        exact ih
+      · have hz : isZero (some q : V) = false := by
+          simp only [isZero, beq_eq_false_iff_ne, ne_eq, Option.some.injEq]; exact hq
+        simp only [List.filter_cons, hz, Bool.not_false, if_true, leastNonzero, if_neg hq, List.filterMap_cons, id,
+          minRat]
+        have ih' : minRat (List.filterMap (fun x => x) (List.filter (fun v => !isZero v) l)) = leastNonzero l := ih
+        rw [ih']
+        cases leastNonzero l with
+        | none => rfl
+        | some b => simp only [min_def]
+
+theorem leastNonzero_some : ∀ (xs : List V) (m : Rat), leastNonzero xs = some m →
+    some m ∈ xs ∧ m ≠ 0 ∧ ∀ q : Rat, some q ∈ xs → q ≠ 0 → m ≤ q := by
+  intro xs
+  induction xs with
+  | nil => intro m h; simp [leastNonzero] at h
+  | cons v l ih =>
+    intro m h
+    cases v with
+    | none =>
+      simp only [leastNonzero] at h
+      obtain ⟨h1, h2, h3⟩ := ih m h
+      exact ⟨by simp [h1], h2, fun q hq => h3 q (by simpa using hq)⟩
+    | some q =>
+      simp only [leastNonzero] at h
+      by_cases hq : q = 0
+      · simp only [if_pos hq] at h
+        obtain ⟨h1, h2, h3⟩ := ih m h
+        refine ⟨by simp [h1], h2, fun r hr hr0 => ?_⟩
+        simp only [List.mem_cons, Option.some.injEq] at hr
+        rcases hr with hr | hr
+        · exact absurd (hr ▸ hq) hr0
+        · exact h3 r hr hr0
+      · simp only [if_neg hq] at h
+        cases hl : leastNonzero l with
+        | none =>
+          rw [hl] at h
+          simp only [Option.some.injEq] at h
+          subst h
+          refine ⟨by simp, hq, fun r hr hr0 => ?_⟩
+          simp only [List.mem_cons, Option.some.injEq] at hr
+          rcases hr with hr | hr
+          · exact le_of_eq hr.symm
+          · exfalso
+            -- `leastNonzero l = none` means `l` has no finite non-zero entry
+            have : ∀ (l : List V), leastNonzero l = none → ∀ r : Rat, some r ∈ l → r = 0 := by
+              intro l
+              induction l with
+              | nil => intro _ r hr; simp at hr
+              | cons u t iht =>
+                intro hn r hr
+                cases u with
+                | none =>
+                  simp only [leastNonzero] at hn
+                  exact iht hn r (by simpa using hr)
+                | some p =>
+                  simp only [leastNonzero] at hn
+                  by_cases hp : p = 0
+                  · simp only [if_pos hp] at hn
+                    simp only [List.mem_cons, Option.some.injEq] at hr
+                    rcases hr with hr | hr
+                    · rw [hr]; exact hp
+                    · exact iht hn r hr
+                  · simp only [if_neg hp] at hn
+                    split at hn <;> simp at hn
+            exact hr0 (this l hl r hr)
+        | some b =>
+          rw [hl] at h
+          simp only [Option.some.injEq] at h
+          obtain ⟨b1, b2, b3⟩ := ih b hl
+          by_cases hqb : q ≤ b
+          · rw [if_pos hqb] at h
+            subst h
+            refine ⟨by simp, hq, fun r hr hr0 => ?_⟩
+            simp only [List.mem_cons, Option.some.injEq] at hr
+            rcases hr with hr | hr
+            · exact le_of_eq hr.symm
+            · exact le_trans hqb (b3 r hr hr0)
+          · rw [if_neg hqb] at h
+            subst h
+            refine ⟨by simp [b1], b2, fun r hr hr0 => ?_⟩
+            simp only [List.mem_cons, Option.some.injEq] at hr
+            rcases hr with hr | hr
+            · rw [hr]; exact le_of_lt (not_le.mp hqb)
+            · exact b3 r hr hr0
+
+theorem leastNonzero_none_iff : ∀ xs : List V, leastNonzero xs = none ↔ ¬ ∃ q : Rat, some q ∈ xs ∧ q ≠ 0 := by
+  intro xs
+  induction xs with
+  | nil => simp [leastNonzero]
+  | cons v l ih =>
+    cases v with
+    | none =>
+      simp only [leastNonzero, ih]
+      simp
+    | some q =>
+      simp only [leastNonzero]
+      by_cases hq : q = 0
+      · simp only [if_pos hq, ih, List.mem_cons, Option.some.injEq, not_exists, not_and, not_not]
+        constructor
+        · intro h r hr
+          rcases hr with hr | hr
+          · rw [hr]; exact hq
+          · exact h r hr
+        · intro h r hr
+          exact h r (Or.inr hr)
+      · simp only [if_neg hq]
+        constructor
+        · intro h
+          split at h <;> simp at h
+        · intro h
+          exact absurd ⟨q, by simp, hq⟩ h
+
+theorem wOf_eq_specWeight (xs : List V) (k : Kind) (v : V) : wOf xs k v = specWeight xs k v := by
+  unfold wOf specWeight
+  have hz : (fun u : V => u == some 0) = isZero := rfl
+  rw [hz]
+  split
+  · rfl
+  · split
+    · rfl
+    · rw [nanmin_filter_eq_leastNonzero]
+      by_cases hk : k = .equal
+      · subst hk; simp [applyKind]
+      · rw [if_neg hk]
+        cases v with
+        | none =>
+          have : isZero (none : V) = false := rfl
+          simp only [this, Bool.false_eq_true, if_false]
+          cases k <;> simp_all [applyKind]
+        | some q =>
+          by_cases hq : q = 0
+          · subst hq
+            have : isZero (some 0 : V) = true := rfl
+            simp only [this, if_true, ne_eq, not_true_eq_false, if_false]
+            cases hl : leastNonzero xs with
+            | none => cases k <;> simp_all [applyKind]
+            | some m =>
+              obtain ⟨_, hm, _⟩ := leastNonzero_some xs m hl
+              have hmm : m * m ≠ 0 := mul_ne_zero hm hm
+              cases k <;> simp_all [applyKind, recip, wFun]
+          · have : isZero (some q : V) = false := by
+              simp only [isZero, beq_eq_false_iff_ne, ne_eq, Option.some.injEq]; exact hq
+            have hqq : q * q ≠ 0 := mul_ne_zero hq hq
+            simp only [this, Bool.false_eq_true, if_false, ne_eq, hq, not_false_eq_true, if_true]
+            cases k <;> simp_all [applyKind, recip, wFun]
+
+theorem weightsFromWeighting_eq_spec (xs : List V) (k : Kind) : weightsFromWeighting xs k = specWeights xs k := by
+  rw [wfw_eq_map]
+  unfold specWeights
+  exact List.map_congr_left (fun v _ => wOf_eq_specWeight xs k v)
+
+/-! ### `error` -/
+
+theorem resid_sq_expand (g c : Rat) (l : List Pt) :
+    S (fun p => ((c + p.x * g) - p.y) ^ 2) l =
+      S (fun p => p.y * p.y) l - 2 * g * S (fun p => p.x * p.y) l - 2 * c * S (fun p => p.y) l
+        + g ^ 2 * S (fun p => p.x * p.x) l + 2 * g * c * S (fun p => p.x) l + c ^ 2 * (l.length : Rat) := by
+  induction l with
+  | nil => simp
+  | cons p r ih =>
+    simp only [S_cons, List.length_cons, Nat.cast_succ]
+    rw [ih]
+    ring
+
 end Pew.Calib
